@@ -59,6 +59,8 @@ struct CtlState {
     points: usize,
     abort: Option<String>,
     done: bool,
+    /// free spins used per thread (see `yield_point`)
+    spins: Vec<u8>,
 }
 
 pub struct Ctl {
@@ -80,6 +82,7 @@ impl Ctl {
                 points: 0,
                 abort: None,
                 done: false,
+                spins: vec![0; n],
             }),
             cv: Condvar::new(),
         }
@@ -232,7 +235,24 @@ impl Controller for Ctl {
         self.park(name, PKind::Point);
     }
     fn yield_point(&self, name: &'static str) {
-        self.park(name, PKind::Yield);
+        // A spinning thread normally may not run again before somebody else has made progress
+        // (otherwise the loop would be unrolled without end). The first FREE_SPINS iterations of a
+        // thread are ordinary schedule points, though, so that "B goes round its retry loop twice
+        // while A is still inside its poll" is an explored schedule.
+        const FREE_SPINS: u8 = 2;
+        let me = ME.with(Cell::get);
+        let free = if me == usize::MAX {
+            false
+        } else {
+            let mut st = self.m.lock().unwrap();
+            if st.spins[me] < FREE_SPINS {
+                st.spins[me] += 1;
+                true
+            } else {
+                false
+            }
+        };
+        self.park(name, if free { PKind::Point } else { PKind::Yield });
     }
     fn lock_acquire(&self, name: &'static str) {
         self.park(name, PKind::Acquire(name));
